@@ -92,6 +92,14 @@ func VerifC13_Evidence() {
 	}
 
 	// anyone replays the genuine confirmation as evidence
+	// the submitter controls every field of the subject; the copy of the signing bytes it
+	// carries is informational (the checker recomputes the checkpoint from the batch contents)
+	switch sym.Choice("bytes-to-sign-field", 3) {
+	case 1:
+		published.BytesToSign = nil
+	case 2:
+		published.BytesToSign = []byte("something else entirely........")
+	}
 	subject, err := codectypes.NewAnyWithValue(&published)
 	if err != nil {
 		panic(err)
